@@ -170,6 +170,10 @@ def r5_counters(ctx):
             r.violation(k, cfg.loc(f.main), "%s no longer updates the document counters" % idioms.last_seg(f.root), work=len(names))
 
 
+# extra build configurations analysed in the thorough tier
+THOROUGH_CONFIGS = []  # without feature `search` there is no index and no instance (the configuration must only compile)
+
+
 def run(ctx):
     ctx.explanation = (
         "Pairing rules between secret/folder mutations and search-index operations: (R1) ClientSecretStorage "
